@@ -46,6 +46,13 @@ def run_property(prop, tier, seed, root=None, overlay=None, only=None, quiet=Fal
     if mutation is not None:
         pf("   non-vacuity: %d/%d in-memory mutants of %s reported by the intended rule, %d not applicable to this tree; %d behaviour-preserving variants silent of %d" % (
             mutation["caught"], mutation["applicable"], prop, mutation["skipped"], mutation["silent_ok"], mutation["silent_total"]))
+        sd = mutation.get("seeded") or {}
+        if sd.get("total"):
+            pf("   seeded corpus: %d/%d recorded seeded changes for %s still reported (%d not applicable to this tree)" % (sd["still_reported"], sd["total"] - sd["skipped"], prop, sd["skipped"]))
+            for l in sd["lost"]:
+                pf("ANALYSIS-ERROR: seeded change %s is no longer reported by %s (%s)" % (l["id"], prop, l["status"]))
+            if sd["lost"] and code == 0:
+                code = 2
         if mutation["missed"] or mutation["noisy"]:
             for m in mutation["missed"]:
                 pf("ANALYSIS-ERROR: mutant %s not reported (expected rule %s)" % (m["id"], m["rule"]))
